@@ -256,7 +256,7 @@ fn operators_vs_methods(rep: &Report, ellipsoids: &[String], tier: Tier, worst: 
 }
 
 fn shared_mappings(rep: &Report) {
-    let pairs: [(&str, &str); 10] = [
+    let pairs: [(&str, &str); 13] = [
         ("axisswap order=2,1", "adapt from=neuf"),
         ("axisswap order=2,1,-3", "adapt from=nedf"),
         ("axisswap order=-1,-2,-3,-4", "adapt from=wsdp"),
@@ -267,20 +267,35 @@ fn shared_mappings(rep: &Report) {
         ("unitconvert xy_in=rad xy_out=deg", "adapt to=enuf_deg"),
         ("unitconvert xy_in=deg xy_out=rad | axisswap order=2,1", "adapt from=neuf_deg"),
         ("axisswap order=2,1 | unitconvert xy_in=rad xy_out=grad", "adapt to=neuf_gon"),
+        ("unitconvert xy_in=deg xy_out=grad", "adapt from=enuf_deg to=enuf_gon"),
+        ("unitconvert xy_in=grad xy_out=deg", "adapt from=enuf_gon to=enuf_deg"),
+        ("unitconvert xy_in=deg xy_out=deg", "adapt from=enuf_deg to=enuf_deg"),
     ];
-    let data: Vec<C4> = vec![[1.2345678901234567, -2.718281828459045, 37.25, 2020.5], [-179.99999, 89.5, -1e-3, 0.], [1e-300, 1e300, 5e-324, -0.]];
+    // "exactly": the same bits, for a lattice of ordinary decimal values and a few extreme ones
+    let mut data: Vec<C4> = vec![[1.2345678901234567, -2.718281828459045, 37.25, 2020.5], [-179.99999, 89.5, -1e-3, 0.], [1e-300, 1e300, 5e-324, -0.]];
+    for k in 1..=400 {
+        let k = k as f64;
+        data.push([k * 0.1, -k / 7., k, 2000. + k]);
+        data.push([k * 0.9, k * 0.45 - 90., -k, 2000. - k]);
+    }
     for (a, b) in pairs {
         for dir in [Fwd, Inv] {
             let mut ctx = Minimal::default();
             rep.eval(1);
-            let d2 = if dir == Fwd { Fwd } else { Inv };
+            let (d2, dname) = if dir == Fwd { (Fwd, "fwd") } else { (Inv, "inv") };
             let (ra, rb) = (run_def(&mut ctx, a, dir, &data), run_def(&mut ctx, b, d2, &data));
             let ok = match (&ra, &rb) {
-                (Ok((na, oa)), Ok((nb, ob))) => na == nb && oa.iter().zip(ob.iter()).all(|(x, y)| (0..4).all(|i| ulps(x[i], y[i]) <= 1.)),
+                (Ok((na, oa)), Ok((nb, ob))) => na == nb && oa.iter().zip(ob.iter()).all(|(x, y)| (0..4).all(|i| x[i].to_bits() == y[i].to_bits() || (x[i] == 0. && y[i] == 0.))),
                 _ => false,
             };
             if !ok {
-                rep.violation(&format!("operators sharing a mapping disagree / {a} vs {b}"), json!({"a": a, "b": b, "a_result": format!("{ra:?}").chars().take(300).collect::<String>(), "b_result": format!("{rb:?}").chars().take(300).collect::<String>()}));
+                rep.violation(&format!("operators sharing a mapping disagree / {a} vs {b}"), {
+                    let first = match (&ra, &rb) {
+                        (Ok((_, oa)), Ok((_, ob))) => oa.iter().zip(ob.iter()).zip(data.iter()).find(|((x, y), _)| (0..4).any(|i| x[i].to_bits() != y[i].to_bits() && !(x[i] == 0. && y[i] == 0.))).map(|((x, y), d)| json!({"input": d, "a_gives": x, "b_gives": y})),
+                        _ => None,
+                    };
+                    json!({"a": a, "b": b, "direction": dname, "first_difference": first, "a_result": format!("{ra:?}").chars().take(200).collect::<String>(), "b_result": format!("{rb:?}").chars().take(200).collect::<String>()})
+                });
             }
         }
     }
